@@ -9,7 +9,7 @@ ASSUMPTIONS = [
     "aliasing between the live population and the recorded history is invisible to the functional model: it is covered by the table obligation T01 (no store into an agent's position/cost/fitness) and by the independent deep snapshot taken after every cycle",
     "among agents of equal cost the order is CPython's stable sort order; positions of tied agents are compared as multisets of the tie class",
 ]
-MODULES = ["PvModel.Props.C15", "PvModel.Props.T01", "PvModel.Props.R15"]
+MODULES = ["PvModel.Props.C15", "PvModel.Props.T01", "PvModel.Props.R15", "PvModel.Props.R00"]
 
 
 def run(ctx):
